@@ -475,6 +475,15 @@ import os as _os
 # nested-extract equalities within any budget tried (DESIGN 11.6), so they are kept for experiments only
 # (REAL_FULL=1) and are not part of the registered contract: the value of binary REALs stays with the bounded
 # stand-ins (ber-forms, rt-ber)
+def _parse_decimal_model(ex, self, chunk):
+    """assumed contract of RealPayloadDecoder._parseDecimal (decimal text: outside the modelled subset): an exact
+    (mantissa, 10, exponent) triple, or the library's error for text that is not a decimal number"""
+    if ex.choose(ex.fresh('decimal.bad', BoolSort()), 'bad-decimal-text'):
+        raise _Raise(ExcV('SubstrateUnderrunError'))
+    return Tup([ex.fresh('decimal.mantissa', I), 10, ex.fresh('decimal.exponent', I)])
+
+
+REAL_DEC[0].params['self'].methods['_parseDecimal'] = _parse_decimal_model
 if not _os.environ.get('REAL_FULL'):
     REAL_DEC[0].yield_ensures = [c for c in REAL_DEC[0].yield_ensures if c[0] not in ('binary-exponent', 'binary-mantissa')]
 CONTRACTS = CONTRACTS + REAL_DEC
